@@ -3,10 +3,42 @@
 20 entries stay consistent)."""
 import json, subprocess
 
+M = "runtime monitor: "
+T_MODEL = "Trusted: the reference interpreter in harness/model (no ysgo code), the AST->text renderer in harness/hast, Go's strconv/math. "
 CHECKS = {
- "C01": ("online trace comparison of the real runner against an independent reference interpreter over generated programs x enumerated choice paths (runtime monitor)",
-         "Held on the executions observed: every Next of every explored (program, path) returned exactly the model's element; evidence lists programs, paths, events and the shapes reached.",
-         "Trusted: the reference interpreter in harness/model (no ysgo code), the AST->text renderer, Go's strconv. Sizes bounded (<=6 nodes, nesting <=10)."),
+ "C01": (M + "online trace comparison of the real runner against an independent reference interpreter over generated programs x systematically enumerated choice paths",
+         "Held on the executions observed: every Next of every explored (program, path) returned exactly the model's element, node, texts, flags, host invocations and store content; evidence lists programs, paths, events and the program shapes reached.",
+         T_MODEL + "Sizes bounded (<=6 nodes, <=45 statements, nesting <=10, <=400 steps, <=10/24 paths per program)."),
+ "C02": (M + "reference evaluator compared with typed values captured at host functions, store and lines; complete operator x type-pair table + random trees in three parenthesisations",
+         "Held on the executions observed; the finite operator table (14 binary operators x 9 type pairs, 2 unary x 3 types) is enumerated completely in every run, everything else is sampled.",
+         T_MODEL + "Trees of depth <=6; string literals without quotes/backslashes."),
+ "C03": (M + "store-state oracle after every step on a recording variable.Storer and on the default store (typed view through a verif hook), histories with host writes and repeated execution; complete assignment table",
+         "Held on the executions observed; the finite assignment table (6 operators x 4 current types x 3 assigned types, + declare) is enumerated completely in every run on both stores.",
+         T_MODEL + "The default store's typed maps are read through the verif hook VerifTypedNames."),
+ "C04": (M + "ground truth by construction: lines assembled per character with known output, compared with Line.Text / Tags / Disabled at the runner's boundary",
+         "Held on the executions observed; a full character-class x position-class matrix is required by the coverage floor. Known finding K1 (text beginning with an escaped bracket) is listed in known_findings.json.",
+         T_MODEL + "Display forms of numbers outside the zone where all shortest-round-trip conventions agree are accepted in any notation that parses back with the shortest digits."),
+ "C06": (M + "fault injection at the script level: one planted fault per generated program (24 fault classes x 12 position classes), panic/err/value classification at Next, 30 further calls after the error; child-process crash containment",
+         "Held on the executions observed: every reached planted fault surfaced as an error and the runner stayed usable; a coverage floor requires every fault class and position class to be reached.",
+         T_MODEL + "Process-fatal failures are attributed through an on-disk progress marker and confirmed by re-running the case alone."),
+ "C07": (M + "crash-point style enumeration: a snapshot after every step of a donor run, restored into receivers in every runner state, continuation compared with the model started at the checkpoint; deep-copy aliasing probes",
+         "Held on the executions observed: every save point x receiver state explored continued as the model prescribes, snapshots stayed unchanged while donors and receivers moved on.",
+         T_MODEL + "Receiver states are produced through the public API; VerifState only confirms them for the evidence."),
+ "C08": (M + "metamorphic: one program rendered in the canonical and in 4/10 PRNG layouts; reflect.DeepEqual of tree.FromReaders results and trace equality along shared choice paths (also against the model)",
+         "Held on the executions observed; a layout-dimension x insertion-point matrix is required by the coverage floor.",
+         T_MODEL + "Layout never touches token content (stated per dimension in the evidence assumptions)."),
+ "C11": (M + "visit-count oracle: every node prints all counts, Snapshot().VisitedNodes compared after every step with the model's count of completed jump-exits; monotonicity; mid-run restores; failed jumps",
+         "Held on the executions observed over generated jump graphs with self-loops, cycles, nested and computed jumps and every tracking marking.",
+         T_MODEL),
+ "C12": (M + "absorbing-state monitor: after the first end, 10 further Next calls with hostile arguments; host-function, command and store-write recorders must stay silent; restore revives",
+         "Held on the executions observed: ends by node end and by stop at nesting depth 0-6 with statements left, ends right after option groups, stops written with extra words.",
+         T_MODEL + "'No variable change' = no Set*/Clear on the recording store, unchanged GetValues() on the default store."),
+ "C17": (M + "handler-log oracle: generated command statements (keyword-prefixed and multi-byte names, hostile words, expression arguments, tab/blank separators) compared with the typing rule of the property",
+         "Held on the executions observed; every hostile word and every keyword-prefixed name is required by the coverage floor. Known finding K3 (names beginning with else/endif/endenum) is listed in known_findings.json.",
+         T_MODEL + "'Decimal literal' = the grammar's NUMBER, optionally negative."),
+ "C19": (M + "contract predicates evaluated exactly on float64 (round_places with math/big rationals) over results captured at a raw host function; values supplied through the store",
+         "Held on the executions observed: about 10^5 (quick) to 5*10^6 (thorough) doubles from 11 hostile classes x 14 results each.",
+         "Trusted: Go's math and math/big. The round_places bound carries a 2 ulp(x) representation allowance."),
 }
 PENDING = {}
 ALL = ["C%02d" % i for i in range(1, 21)]
@@ -39,7 +71,7 @@ def main():
                 "replay_cmd_template": "./check replay {path}",
                 "engine": "vcheck",
                 "level_claimed": {"category": "exploration", "text": text, "design_ref": "DESIGN.md section 5, " + pid},
-                "level_note": note,
+                "level_note": note + " Verdicts come from ysgo's public boundary; case lists are determined by VERIF_SEED; exit 2 (inconclusive) when the coverage floor is not reached.",
                 "technique": tech,
             })
         else:
